@@ -922,3 +922,59 @@ fn c22_wdcm() {
     while k < 48 { assert!(vm.memory.read_bytes::<_, 1>(k as u64).unwrap()[0] == init[k], "C22 compare never writes memory"); k += 1; }
     core::mem::forget(vm);
 }
+
+//@ props=C22,C24:thorough,C29:thorough tier=quick class=bounded(stack=48) timeout=3000 -- WDOP: all 64 immediates (ADD SUB NOT OR XOR AND SHL SHR x direct/indirect; undefined => InvalidImmediateValue), operands big-endian from memory / register, 128-bit result written big-endian to owned memory at $rA, $of = carry/borrow, ArithmeticOverflow unless WRAPPING, shifts >= 128 give zero; unowned destination refused with memory unchanged
+#[kani::proof]
+#[kani::unwind(70)]
+#[kani::stub(crate::constraints::reg_key::split_registers, split_registers_stub)]
+fn c22_wdop() {
+    let (mut vm, pre, init) = vm_wide();
+    let (ra, rb, rc, imm) = (any_reg(), any_reg(), any_reg(), any_imm06());
+    let mid = after_gas(&pre, COST_wdop);
+    let res = op::WDOP::new(ra, rb, rc, imm).execute(&mut vm);
+    let bits = imm.to_u8();
+    let (opc, indirect) = (bits & 31, (bits >> 5) & 1 == 1);
+    let post = &vm.registers;
+    let (dst, b, c) = (mid[ri(ra)], mid[ri(rb)], mid[ri(rc)]);
+    let mem_same = |vm: &Vm| -> bool { let mut ok = true; let mut k = 0; while k < 48 { if vm.memory.read_bytes::<_, 1>(k as u64).unwrap()[0] != init[k] { ok = false; } k += 1; } ok };
+    if COST_wdop > pre[R_CGAS] { assert!(panic_of(&res) == Some(PanicReason::OutOfGas) && mem_same(&vm)); }
+    else if opc > 7 {
+        assert!(panic_of(&res) == Some(PanicReason::InvalidImmediateValue) && mem_same(&vm), "C22 invalid math immediate");
+    } else if !readable16(b) || (indirect && !readable16(c)) {
+        assert!(matches!(panic_of(&res), Some(PanicReason::MemoryOverflow) | Some(PanicReason::UninitalizedMemoryAccess)) && mem_same(&vm), "C22 unreadable operand");
+    } else {
+        let l = be128(&init, b);
+        let r = if indirect { be128(&init, c) } else { c as u128 };
+        let (val, of): (u128, bool) = match opc {
+            0 => { let s = l.wrapping_add(r); (s, s < l) }
+            1 => (l.wrapping_sub(r), l < r),
+            2 => (!l, false),
+            3 => (l | r, false),
+            4 => (l ^ r, false),
+            5 => (l & r, false),
+            6 => (if r >= 128 { 0 } else { l << r }, false),
+            _ => (if r >= 128 { 0 } else { l >> r }, false),
+        };
+        if of && !wrapping(&pre) {
+            assert!(panic_of(&res) == Some(PanicReason::ArithmeticOverflow) && mem_same(&vm), "C22 overflow without WRAPPING panics and writes nothing");
+        } else {
+            let writable = dst <= WSTK - 16 && pre[R_SSP] <= dst && dst + 16 <= pre[R_SP];
+            if !writable {
+                assert!(matches!(panic_of(&res), Some(PanicReason::MemoryOwnership) | Some(PanicReason::MemoryOverflow) | Some(PanicReason::UninitalizedMemoryAccess)), "C24 unowned / unmapped destination is refused");
+                assert!(mem_same(&vm), "C24 a refused wide write leaves memory unchanged");
+            } else {
+                assert!(matches!(res, Ok(ExecuteState::Proceed)), "C22 WDOP succeeds");
+                let mut k = 0;
+                while k < 48 {
+                    let a = k as u64;
+                    let want = if a >= dst && a < dst + 16 { ((val >> (8 * (15 - (a - dst)))) & 0xff) as u8 } else { init[k] };
+                    assert!(vm.memory.read_bytes::<_, 1>(a).unwrap()[0] == want, "C22 result written big-endian to exactly the 16 destination bytes");
+                    k += 1;
+                }
+                assert!(post[R_OF] == of as Word && post[R_ERR] == 0 && post[R_PC] == pre[R_PC] + 4, "C22 $of = carry/borrow, $err = 0, pc + 4");
+                assert!(unchanged_except(&pre, post, &[R_OF, R_ERR, R_PC, R_CGAS, R_GGAS]));
+            }
+        }
+    }
+    core::mem::forget(vm);
+}
